@@ -1,3 +1,4 @@
 pub mod c12;
+pub mod c04;
 #[cfg(feature = "ffi")]
 pub mod c19;
